@@ -445,6 +445,9 @@ def hashFields (cls : String) : Option (List String) :=
       ∨ cls = "SoundEventPrediction" ∨ cls = "ClipPrediction" then some ["uuid"]
   else none
 
+/-- a table of hashed fields as extracted by the check: rows (class, fields) -/
+def tableOf (rows : List (String × List String)) : String → Option (List String) := fun c => rows.lookup c
+
 /-- primitive hash functions of the interpreter (arbitrary) and the way each class combines
     the hashes of the fields it reads (`hash(x)`, `hash((x, y))`, …: arbitrary) -/
 structure PyHasher where
@@ -462,22 +465,24 @@ def allSome {α} : List (Option α) → Option (List α)
   | some x :: xs => (allSome xs).map (x :: ·)
 
 mutual
-def pyHash (H : PyHasher) : PyVal → Option Int
+/-- `hf` is the table of hashed fields per class (`hashFields` for the pinned code; the check
+    instantiates the theorems with the table it extracts from the current source) -/
+def pyHash (hf : String → Option (List String)) (H : PyHasher) : PyVal → Option Int
   | .none => some H.none
   | .bool b => some (H.bool b)
   | .str s => some (H.str s)
   | .int n => some (H.int n)
   | .float q _ => some (H.float q)
   | .list _ => Option.none
-  | .tuple xs => (allSome (pyHashList H xs)).map H.tuple
+  | .tuple xs => (allSome (pyHashList hf H xs)).map H.tuple
   | .obj cls names vals =>
-    match hashFields cls with
+    match hf cls with
     | Option.none => Option.none
     | some fs =>
-      (allSome (fs.map fun f => ((names.zip (pyHashList H vals)).lookup f).join)).map (H.combine cls)
-def pyHashList (H : PyHasher) : List PyVal → List (Option Int)
+      (allSome (fs.map fun f => ((names.zip (pyHashList hf H vals)).lookup f).join)).map (H.combine cls)
+def pyHashList (hf : String → Option (List String)) (H : PyHasher) : List PyVal → List (Option Int)
   | [] => []
-  | x :: xs => pyHash H x :: pyHashList H xs
+  | x :: xs => pyHash hf H x :: pyHashList hf H xs
 end
 
 /-- the canonical tree the harness sends for a raw value -/
